@@ -42,6 +42,8 @@ def handle (op : String) (args : List String) : Option String :=
   | "c04.holds.encodings_agree" | "c04.holds.uchar_scalar_ascii_agrees" => do
       let (a, b, c) ← run (do let a ← pOkMesh; let b ← pOkMesh; let c ← pOkMesh; pure (a, b, c)) args
       pure (boolStr (meshEq a b && meshEq b c))
+  | "c04.holds.entrypoints_agree" | "c04.holds.header_entrypoints_agree" | "c04.holds.save_agrees" =>
+      some (boolStr (allSegmentsEqual args))
   | _ => none
 
 end Driver.C04
